@@ -191,3 +191,14 @@ def _real_restart(rng, n):
 
 Unit("C11", "run()+restart == uninterrupted run [real runs]", concrete=_real_restart,
      bounded_desc="random 3-band System_R, 4x4x4 grid, 2-3 refinement iterations split over 1-2 restarts, directory listing sorted/reversed/rotated, memory and dump_results storage; rtol 1e-8")
+
+
+# ------------------------------------------------------------------ state reconstruction and continuation, on the real text of run()
+# (the machinery is shared with C10: run() + process() executed for every refinement/merge history with symbolic results; here the
+#  obligations concern what is written for a restart and what a restarted run rebuilds from it -- in one and in two restart legs)
+from contracts.C10 import _mk_restart_unit, _mk_unit      # noqa: E402
+
+_mk_restart_unit(2, 1, 0, prop="C11", legs=2)
+_mk_restart_unit(2, 2, 1, prop="C11", legs=2)
+_mk_unit(2, 2, "restart", True, ("quick", "thorough"), prop="C11", klist_part=1)
+_mk_unit(3, 2, "restart", True, ("quick", "thorough"), prop="C11", klist_part=2)
